@@ -2103,7 +2103,9 @@ def fixup_asymmetric_weights(op: Operation, arch, nng) -> Operation:
     if detect_asymmetric_weights(op):
         if op.run_on_npu:
             print("Zero points have been adjusted.")
-            op.weights.quantization.zero_point *= 0
+            # not in place: the array is shared with the other copies of this weight tensor (and its source tensor),
+            # which may belong to operators that stay on the CPU
+            op.weights.quantization.zero_point = op.weights.quantization.zero_point * 0
     return op
 
 
